@@ -94,7 +94,13 @@ static void runC01(const KCase& c, Ctx& ctx, const RunOpt& ro)
     orc.solve(k, g, nbUse, S);
     maxNb = std::max(maxNb, (int)nbUse.size());
     kapMax = std::max(kapMax, S.solved ? S.kappa : 1e300);
-    if (!S.solved || !(S.kappa <= kKappaMax)) { nIll++; continue; }
+    if (!S.solved || !(S.kappa <= kKappaMax))
+    {
+      nIll++;
+      if (!S.solved && getenv("C01_DEBUG")) diag(fmt("SING ndim %d nvar %d order %d nfex %d n %d moving %d nmaxi %d radius %d nb %d nu %d nfeq %d het %d kappa %g", c.ndim, c.nvar, c.order, c.nfex, c.n(), c.moving, c.nmaxi, c.hasRadius, (int)nbUse.size(), S.nu, S.nfeq, (int)c.heterotopic(), S.kappa));
+      if (!S.solved) ctx.label(S.nu < S.nfeq ? "singular:fewer-data-than-drift-eq" : (S.nu < S.nfeq + nv ? "singular:barely-enough-data" : "singular:other"));
+      continue;
+    }
     double ek = epsK(S.kappa, eta);
     double er = std::max(1e-9, ek);
     nChecked++;
@@ -103,7 +109,7 @@ static void runC01(const KCase& c, Ctx& ctx, const RunOpt& ro)
     for (int tv = 0; tv < nv; tv++)
     {
       double e = out.estim[(size_t)(k * nv + tv)], s = out.stdev[(size_t)(k * nv + tv)];
-      LD tolE = (LD)ek * S.scaleE[(size_t)tv] + 1e-300L;
+      LD tolE = (LD)ek * S.scaleE[(size_t)tv] + floorE(S, eta);
       if (isNA(e) || std::isnan(e))
       {
         ctx.fail("estim-na:" + V, fmt("target %d var %d: estimate undefined (%g) although the system is regular (kappa %.3g, %d unknowns); oracle %.12Lg", k, tv, e, S.kappa, S.N, S.estim[(size_t)tv]));
@@ -114,7 +120,7 @@ static void runC01(const KCase& c, Ctx& ctx, const RunOpt& ro)
         ctx.fail("estim:" + V, fmt("target %d var %d: estim %.15g, oracle %.15Lg (diff %.3Lg, tol %.3Lg, kappa %.3g, N %d, %s)", k, tv, e, S.estim[(size_t)tv], fabsl((LD)e - S.estim[(size_t)tv]), tolE, S.kappa, S.N, topo(c).c_str()));
         return;
       }
-      LD tolV = (LD)ek * S.scaleV[(size_t)tv] + 1e-300L;
+      LD tolV = (LD)ek * S.scaleV[(size_t)tv] + floorV(S, eta, tv);
       LD vo = std::max((LD)0, S.var[(size_t)tv]);
       if (isNA(s) || std::isnan(s) || s < 0)
       {
@@ -150,7 +156,8 @@ static void runC01(const KCase& c, Ctx& ctx, const RunOpt& ro)
     for (int tv = 0; tv < nv; tv++)
     {
       LD res = R.col(tv).cwiseAbs().maxCoeff();
-      LD bound = (LD)er * (S.normA * W.col(tv).cwiseAbs().maxCoeff() + S.B.col(tv).cwiseAbs().maxCoeff());
+      LD bound = (LD)er * (S.normA * W.col(tv).cwiseAbs().maxCoeff() + S.B.col(tv).cwiseAbs().maxCoeff()) +
+                 (LD)epsIn(eta) * (LD)S.covScale * ((LD)1 + W.col(tv).cwiseAbs().sum());
       if (!(res <= bound))
       {
         int rmax = 0;
@@ -162,7 +169,7 @@ static void runC01(const KCase& c, Ctx& ctx, const RunOpt& ro)
     {
       MatL Rz = S.A * Z - S.zext;
       LD res = Rz.cwiseAbs().maxCoeff();
-      LD bound = (LD)er * (S.normA * Z.cwiseAbs().maxCoeff() + S.zext.cwiseAbs().maxCoeff());
+      LD bound = (LD)er * (S.normA * Z.cwiseAbs().maxCoeff() + S.zext.cwiseAbs().maxCoeff()) + (LD)epsIn(eta) * (LD)S.covScale * Z.cwiseAbs().sum();
       if (!(res <= bound))
       {
         ctx.fail("zam-residual:" + V, fmt("target %d: |A zam - (z - m)| = %.3Lg > %.3Lg (kappa %.3g, %s)", k, res, bound, S.kappa, topo(c).c_str()));
@@ -237,7 +244,7 @@ static void runC01(const KCase& c, Ctx& ctx, const RunOpt& ro)
         auto resid = [&](const Sys& S) -> LD {
           if (W.rows() != S.N) return (LD)INFINITY;
           MatL R = S.A * W - S.B;
-          LD bound = (LD)std::max(1e-9, epsK(S.kappa, eta)) * (S.normA * maxAbs(W) + maxAbs(S.B));
+          LD bound = (LD)std::max(1e-9, epsK(S.kappa, eta)) * (S.normA * maxAbs(W) + maxAbs(S.B)) + (LD)epsIn(eta) * (LD)S.covScale * ((LD)1 + W.cwiseAbs().sum());
           return maxAbs(R) / std::max(bound, (LD)1e-300);
         };
         LD r0 = resid(S0), rl = resid(Sl);
